@@ -106,7 +106,7 @@ PROPS = {
         "timeout": {"quick": 400, "thorough": 3600},
     },
     "C08": {
-        "suites": ["c08conc"],
+        "suites": ["c08conc", "c08sched"],
         "assumptions": COMMON_ASSUME + [
             "'the reporting goroutine has ended' is observed by a goroutine dump after Close returned",
             "a second Close call that overlaps the first returns nil before the first has finished (known finding D5b if exhibited); the barrier is claimed for the winning caller",
